@@ -3,6 +3,7 @@ from __future__ import annotations
 
 import time
 
+from architecture_simulator.isa.parser_exceptions import ParserException
 from architecture_simulator.simulation.riscv_simulation import RiscvSimulation
 from architecture_simulator.simulation.toy_simulation import ToySimulation
 from architecture_simulator.uarch.memory.memory import MemoryAddressError
@@ -20,6 +21,9 @@ TY = {1: fixedint.UInt8, 2: fixedint.UInt16, 4: fixedint.UInt32, 8: fixedint.UIn
 RNAME = {1: "read_byte", 2: "read_halfword", 4: "read_word", 8: "read_doubleword"}
 WNAME = {1: "write_byte", 2: "write_halfword", 4: "write_word", 8: "write_doubleword"}
 VALS = {1: (0x5A, 0x00), 2: (0xBEEF, 0x0100), 4: (0x11223344, 0x80000001), 8: (0x0102030405060708, 0xFFFFFFFF00000000)}
+
+
+REJECTED = (".data\nv: .word 0x01020304\nv: .word 5\n.text\naddi x1, x0, 1\n", ".data\nv: .word 0x01020304, 0x05060708\n.text\naddi x1, x0, 1\nbeq x0, x0, nowhere\n")
 
 
 def rv_addresses(seed):
@@ -51,10 +55,17 @@ class Setup:
         ops.append(("reset", 0, 0, 0))  # Memory.reset(): what load_program does
         # environment event: a simulation of the OTHER architecture is created next to this memory and used once
         ops.append(("other", 0, 0, 0))
+        if arch == "riscv":
+            # the simulation that owns this memory loads a program that is REJECTED (0: while its data segment is being
+            # written, 1: in the text segment, after the data was written) and then a program without data: the net effect
+            # on the memory is that of a reset (a TOY load builds a new memory object, so there is nothing to observe there)
+            ops.append(("reload", 0, 0, 0))
+            ops.append(("reload", 0, 0, 1))
         self.ops = ops
 
     def fresh(self):
-        return (RiscvSimulation() if self.arch == "riscv" else ToySimulation()).state.memory
+        self.sim = RiscvSimulation() if self.arch == "riscv" else ToySimulation()
+        return self.sim.state.memory
 
     def cells(self, a, width):
         """Cell addresses an access of `width` bytes at a touches, in order (None if the width is unsupported)."""
@@ -83,6 +94,25 @@ def apply(setup, mem, ref, op, checks=None):
         except Exception as e:  # noqa
             if checks is not None:
                 checks.append(("unexpected-error", f"creating a simulation of the other architecture raised {type(e).__name__}: {e}"))
+        return
+    if kind == "reload":
+        try:
+            try:
+                setup.sim.load_program(REJECTED[vi])
+                if checks is not None:
+                    checks.append(("unexpected-error", "harness: the program meant to be rejected was accepted"))
+            except ParserException:
+                pass
+            setup.sim.load_program("addi x1, x0, 1\n")
+            if setup.sim.state.memory is not mem and checks is not None:
+                checks.append(("unexpected-error", "harness: load_program replaced the memory object"))
+        except Exception as e:  # noqa
+            if checks is not None:
+                checks.append(("unexpected-error", f"loading a program without data after a rejected one raised {type(e).__name__}: {e}"))
+        others = ref.get("_others")
+        ref.clear()
+        if others:
+            ref["_others"] = others
         return
     if kind == "reset":
         try:
@@ -169,6 +199,8 @@ def opname(op):
         return "reset()"
     if kind == "other":
         return "<a simulation of the other architecture is created and used>"
+    if kind == "reload":
+        return f"<load_program: a program rejected in its {('data', 'text')[vi]} segment, then a program without data>"
     return f"{(RNAME if kind == 'r' else WNAME)[width]}({a:#x}{'' if kind == 'r' else ', ' + hex(VALS[width][vi])})"
 
 
@@ -182,9 +214,9 @@ def run_history(setup, hist):
     before = visible(setup, mem)
     op = setup.ops[hist[-1]]
     apply(setup, mem, ref, op, checks)
-    cells = setup.cells(op[2], op[1]) if op[0] not in ("reset", "other") else None
+    cells = setup.cells(op[2], op[1]) if op[0] not in ("reset", "other", "reload") else None
     settle(setup, mem, ref, op, checks)
-    if op[0] == "reset":
+    if op[0] in ("reset", "reload"):
         return mem, ref, checks
     if cells is None or all(not setup.valid(x) for x in cells) or op[0] == "r":
         # an access lying entirely outside the valid range (and any read, and any unsupported access) changes nothing
@@ -252,9 +284,11 @@ def expand(shard):
             p.evaluations += 1
             p.traces += 1
             op = setup.ops[oi]
-            cells = setup.cells(op[2], op[1]) if op[0] not in ("reset", "other") else []
+            cells = setup.cells(op[2], op[1]) if op[0] not in ("reset", "other", "reload") else []
             if op[0] == "reset":
                 p.counters["reset"] += 1
+            elif op[0] == "reload":
+                p.counters["reload-after-a-rejected-program"] += 1
             elif op[0] == "other":
                 p.counters["neighbour-created"] += 1
             elif cells is not None:
@@ -275,7 +309,7 @@ def expand(shard):
                 p.violation(dict(oracle="flat-memory", arch=arch, field=f), dict(kind="mem-history", arch=arch, seed=seed, lite=lite, hist=list(hist)),
                             f"{arch} memory: [{'; '.join(opname(setup.ops[i]) for i in hist)}]: {d}", size=(len(hist), hist))
             key = digest((canon(mem), tuple(sorted((k, v) for k, v in ref.items() if not isinstance(k, str))),
-                          tuple(sorted((k, tuple(sorted(v, key=lambda z: -1 if z is None else z))) for k, v in ref.get("_straddle", {}).items())), bool(ref.get("_others"))))
+                          tuple(sorted((k, tuple(sorted(v, key=lambda z: -1 if z is None else z))) for k, v in ref.get("_straddle", {}).items())), bool(ref.get("_others")), bool(setup.sim.has_instructions()) if arch == "riscv" else None))
             out.append((hist, key, False))
     p.notes["out"] = out
     return p
@@ -291,7 +325,7 @@ def replay(case):
 def run(ctx):
     ctx.rule = ("BFS over histories of read/write x widths {1,2,4,8 bytes} x addresses around both ends of the valid range (aligned, unaligned, negative, "
                 ">= 2^32, straddling) on the real flat memories obtained from RiscvSimulation().state.memory and ToySimulation().state.memory, replayed on "
-                "fresh objects, deduplicated on the canonical object state. Operations include reset() and the environment event 'a simulation of the other architecture is created next to this memory and used' (part of the state key, so every history is explored with and without a neighbour). Oracle: cell dictionary with address reduction mod 2^32 (none for TOY): reads "
+                "fresh objects, deduplicated on the canonical object state. Operations include reset(), 'the owning RISC-V simulation loads a rejected program (rejected in the data / in the text segment) and then a program without data' (net effect: a reset) and the environment event 'a simulation of the other architecture is created next to this memory and used' (part of the state key, so every history is explored with and without a neighbour). Oracle: cell dictionary with address reduction mod 2^32 (none for TOY): reads "
                 "compose the last written cells little-endian; an access touching an invalid address raises MemoryAddressError; reads and accesses entirely "
                 "outside the range leave the canonical state unchanged; byte accesses on the 16-bit-cell TOY memory raise; after every transition the public cell table lists exactly the written cells with their values. Non-trivial = read of a written "
                 "cell or straddling access.")
@@ -300,11 +334,11 @@ def run(ctx):
         t0 = time.time()
         setup = Setup(arch, ctx.seed, lite)
         mem0 = setup.fresh()
-        key0 = digest((canon(mem0), (), (), False))
+        key0 = digest((canon(mem0), (), (), False, False if arch == "riscv" else None))
         res = bfs(expand, (arch, ctx.seed, lite), [key0], [()], depth, 3000000, label=f"[C18] {arch}", verbose=not ctx.quick)
         if res.stopped in ("state-cap", "time-cap"):
             ctx.exhaustive = False
         res.part.sample(dict(kind="mem-history", arch=arch, ops=[opname(setup.ops[i]) for i in (1, len(setup.ops) // 2, len(setup.ops) - 1)]))
         ctx.space(f"{arch}-memory-{'1val' if lite else '2val'}-depth{depth}", res.part, t0, operations=len(setup.ops), addresses=len(setup.addrs), depth=res.depth,
                   closed=res.closed, stopped_early=res.stopped)
-    ctx.require("straddling", "outside", "read-of-written", "wrapped-address", "unsupported", "reset", "neighbour-created")
+    ctx.require("straddling", "outside", "read-of-written", "wrapped-address", "unsupported", "reset", "neighbour-created", "reload-after-a-rejected-program")
